@@ -8,8 +8,8 @@ Driver ops for the generic packed-pair searcher (`src/arch/generic/packedpair.rs
 
 The haystack is region 0 (base `hbase`), needles are region 1 (base `nbase`; the construction
 needle is only indexed, never loaded). `Pair::with_indices` returning `None` (equal indices or
-an index `>= needle.len()`) answers `ok badpair`. Every other answer ends with
-` minlen=<min_haystack_len>`.
+an index `>= needle.len()`) answers `ok badpair steps=0 loads=- minlen=0`. Every answer ends
+with ` minlen=<min_haystack_len>`.
 -/
 import MemchrModel.Driver.Util
 import MemchrModel.Model.Sensible
@@ -23,7 +23,8 @@ open Memchr.PackedPair
 def ppRun (lanes : Nat) (h : 0 < lanes) (needle : Slice) (i1 i2 : Nat)
     (body : (V : VecImpl) → Finder → M (Option Nat)) : String :=
   let V := Sensible.impl lanes h
-  if i1 == i2 || i1 ≥ needle.len || i2 ≥ needle.len then "ok badpair" else
+  if i1 == i2 || i1 ≥ needle.len || i2 ≥ needle.len then
+    fmtRes (fun (_ : Unit) => "badpair") 1 (.ok () {}) ++ " minlen=0" else
   match Finder.new V needle i1 i2 {} with
   | .fault e => fmtFault e
   | .ok f c =>
